@@ -110,6 +110,7 @@ static Val run_copier(const Val &c)
             case 5: copier.setBufferSize(op.at(1).asInt()); break;
             case 6: dst.flushSome(op.at(1).asInt()); break;
             case 7: dst.die(); break;
+            case 8: if (!seq) rnd.close(); break;      // the source is closed under the copier: reads fail and the device says it is at its end
             default: throw std::runtime_error("badcase");
             }
         }
